@@ -429,6 +429,21 @@ func init() {
 		Name: "core", Cfgs: []drv.Cfg{cfgBoth}, Letters: coreLetters,
 		Depth: map[string]int{"quick": 6, "thorough": 7}, Obs: drv.ObsAll &^ drv.ObsTrim, KeySet: []int{0, 1},
 	})
+	// every state of the core alphabet, and as leaves: each group of read calls as the very
+	// first thing a freshly opened handle sees (read-write / read-only, with / without index files)
+	Register(&Family{
+		Name: "firstcall", Cfgs: []drv.Cfg{cfgBoth, withVer(cfgBoth, 1)}, Letters: coreLetters,
+		Leaves: func(w *drv.World) []string {
+			var ls []string
+			for _, fl := range []string{"", "x", "r", "rx"} {
+				for _, g := range []string{"w", "c", "g", "k", "t", "s", "n", "f"} {
+					ls = append(ls, "F:"+fl+"/"+g)
+				}
+			}
+			return ls
+		},
+		Depth: map[string]int{"quick": 5, "thorough": 6}, Obs: drv.ObsWalk | drv.ObsNext, LeafObs: drv.ObsAll, KeySet: []int{0, 1},
+	})
 	Register(&Family{
 		Name: "cfg", Cfgs: []drv.Cfg{cfgNone, cfgKeys, cfgTimes, withVer(cfgBoth, 1), withAS(cfgBoth)}, Letters: coreLetters,
 		Depth: map[string]int{"quick": 5, "thorough": 6}, Obs: drv.ObsAll &^ drv.ObsTrim, KeySet: []int{0, 1},
